@@ -319,7 +319,7 @@ func (w *world) buildSend(op kernel.Op) (*xchain, *sendInfo, []byte, *big.Int) {
 		si.tok = c.wrapped[keys[kernel.Mod(op.Arg(3)/4, len(keys))]]
 	}
 	si.amount = node.Big(amountTable[kernel.Mod(op.Arg(4), len(amountTable))])
-	si.call = callKind(kernel.Mod(op.Arg(5), 7))
+	si.call = callKind(kernel.Mod(op.Arg(5), 8))
 	// fee
 	if f := op.Arg(6); f > 0 {
 		si.feeAmt = big.NewInt(f)
@@ -363,6 +363,10 @@ func (w *world) buildSend(op kernel.Op) (*xchain, *sendInfo, []byte, *big.Int) {
 	case callRevert:
 		if dstChain != nil {
 			ccd.ContractAddress, ccd.CallData = lower(dstChain.counter), []byte{0xfe}
+		}
+	case callBigReturn:
+		if dstChain != nil {
+			ccd.ContractAddress, ccd.CallData = lower(dstChain.counter), []byte{0xfd, []byte{2, 15, 16, 17, 33, 48}[kernel.Mod(op.Arg(7), 6)]}
 		}
 	case callHookFail:
 		ccd.ContractAddress = lower(stakingAddr)
